@@ -6,6 +6,8 @@ open Emboss.Lr1
 #print axioms C08_complete
 #print axioms C08_unambiguous
 #print axioms C08_accepts_iff
-#print axioms C08_terminates_partial
+#print axioms C08_terminates
+#print axioms C08_decides
+#print axioms C08_terminates_accepting
 #print axioms C08_error_position
 #print axioms C08_error_position_unproductive_counterexample
